@@ -47,7 +47,13 @@ class Refuse(Exception):
 
 def strip_comments(src):
     src = re.sub(r"/\*.*?\*/", " ", src, flags=re.S)
-    return re.sub(r"//[^\n]*", "", src)
+    src = re.sub(r"//[^\n]*", "", src)
+    # `const` on locals does not change what the code does: `Item* const x`, `Item** const x`, `const usize x`, `const Item* x`
+    src = re.sub(r"(\*\s*)const\b(?=\s*\w+\s*[=;])", r"\1", src)
+    src = re.sub(r"\bconst\s+(usize|ssize|Item\s*\*|Iterator)(?=\s*\w+\s*[=;])", r"\1", src)
+    # a cast of an unsigned height to ssize: `usize - usize` stored into an ssize is translated as the exact difference anyway
+    src = re.sub(r"\(\s*ssize\s*\)\s*(\w+)", r"\1", src)
+    return src
 
 
 TOK = re.compile(r"\s*(->|==|!=|<=|>=|&&|\|\||\+\+|--|[A-Za-z_]\w*|\d+|[{}()\[\];,<>=+\-*/!?:&.~|^%])")
@@ -553,6 +559,8 @@ class Tr:
                 raise Refuse(f"{self.fn}: comparison of {ta} with {tb}")
             if ta == "ptr" and e[1] not in ("==", "!="):
                 raise Refuse(f"{self.fn}: ordering comparison of pointers")
+            if ta == "ptr" and b.startswith("(") and not a.startswith("("):
+                a, b = b, a                      # normal form: `p->f == x` and `x == p->f` are written the same way
             op = {"==": "=", "!=": "≠", "<=": "≤", ">=": "≥"}.get(e[1], e[1])
             return f"({a} {op} {b})"
         t, ty = self.rv(e, env)
@@ -580,6 +588,32 @@ class Tr:
             return f"(Cell.{e[2]} {t})"
         if e[0] == "tern":
             return f"(if {self.cond(e[1], env)} then {self.lv(e[2], env)} else {self.lv(e[3], env)})"
+        if e[0] == "call" and e[1] in CELL_HELPERS and len(e[2]) == 1:
+            # a private helper returning `Item*&`: its body (locals + one reference + return) is inlined on the argument
+            pname, items = CELL_HELPERS[e[1]]
+            t, ty = self.rv(e[2][0], env, "ptr")
+            if ty != "ptr":
+                raise Refuse(f"{self.fn}: `{e[1]}` called on {ty}")
+            sub = Tr(e[1], self.sigs, self.fields, False)
+            env2 = {pname: "ptr"}
+            binds = f"let {lean_name(pname)} : Nat := {t}; "
+            for st in items:
+                if st[0] == "skip":
+                    continue
+                if st[0] == "decl" and st[1] == "Item*" and st[3] is not None:
+                    tt, tty = sub.rv(st[3], env2, "ptr")
+                    if tty != "ptr":
+                        raise Refuse(f"{e[1]}: local `{st[2]}`")
+                    binds += f"let {lean_name(st[2])} : Nat := {tt}; "
+                    env2[st[2]] = "ptr"
+                elif st[0] == "decl" and st[1] == "Item*&" and st[3] is not None:
+                    binds += f"let {lean_name(st[2])} : Cell := {sub.lv(st[3], env2)}; "
+                    env2[st[2]] = "cell"
+                elif st[0] == "return" and st[1] is not None:
+                    return f"({binds}{sub.lv(st[1], env2)})"
+                else:
+                    raise Refuse(f"{e[1]}: statement `{st[0]}` in a helper that returns Item*&")
+            raise Refuse(f"{e[1]}: no return")
         raise Refuse(f"{self.fn}: lvalue form `{e[0]}` is outside the translated subset")
 
     def assign(self, lhs, rhs, env, ind):
@@ -652,8 +686,6 @@ class Tr:
                 raise Refuse(f"{self.fn}: declaration inside a nested block followed by more statements")
             return self.stmts(list(s[1]) + rest, env, ind, ret)
         if k == "return":
-            if rest:
-                raise Refuse(f"{self.fn}: statements behind a return")
             if s[1] is None:
                 if ret != "void":
                     raise Refuse(f"{self.fn}: return without value")
@@ -1136,7 +1168,14 @@ class Tr2(Tr):
         if s[0] == "for":
             _, init, cond, step, body = s
             if init is not None and init[0] == "multidecl":
+                # a further declarator `* end = &endItem` that is never assigned is just a name for the sentinel's address
+                keep = []
                 for d in init[1]:
+                    if d is not init[1][0] and d[3] is not None and self.strip(d[3]) == ("endptr",) and not assigns_to((cond, step, body), d[2]):
+                        cond, step, body = subst_id((cond, step, body), d[2], ("endptr",))
+                    else:
+                        keep.append(d)
+                for d in keep:
                     _, ty, nm, ini = d
                     if nm in env2 or ty not in FIELD_TYPES or ty in ("T", "V"):
                         raise Refuse(f"{self.fn}: for-init `{ty} {nm}`")
@@ -1200,6 +1239,32 @@ class Tr2(Tr):
         return pre + call(env2, ind)
 
 
+def assigns_to(node, name):
+    if isinstance(node, tuple):
+        if node and node[0] == "assign":
+            l = node[1]
+            while l[0] == "paren":
+                l = l[1]
+            if l == ("id", name):
+                return True
+        if node and node[0] in ("preinc", "predec") and node[1] == ("id", name):
+            return True
+        return any(assigns_to(x, name) for x in node[1:])
+    if isinstance(node, list):
+        return any(assigns_to(x, name) for x in node)
+    return False
+
+
+def subst_id(node, name, repl):
+    if isinstance(node, tuple):
+        if node == ("id", name):
+            return repl
+        return tuple(subst_id(x, name, repl) for x in node)
+    if isinstance(node, list):
+        return [subst_id(x, name, repl) for x in node]
+    return node
+
+
 def always_returns(s):
     if s[0] == "return":
         return True
@@ -1235,8 +1300,22 @@ def parse_params(fn, text):
     return params
 
 
+CELL_HELPERS = {}
+
+
+def find_cell_helpers(src):
+    CELL_HELPERS.clear()
+    for m in re.finditer(r"Item\s*\*\s*&\s*(\w+)\s*\(\s*Item\s*\*\s*(\w+)\s*\)\s*\{", src):
+        body = src[m.end():balanced(src, m.end() - 1) - 1]
+        p = P(tokenize(body), m.group(1))
+        items = p.block_items()
+        if p.peek() is None:
+            CELL_HELPERS[m.group(1)] = (m.group(2), items)
+
+
 def translate_header(path):
     src = strip_comments(Path(path).read_text())
+    find_cell_helpers(src)
     fields, (istart, iend) = item_fields(src)
     for f, want in HEAP_FIELDS.items():
         if f not in fields or FIELD_TYPES.get(fields[f][0]) != want:
